@@ -1,5 +1,5 @@
 """Group penalties with an explicit group layout (bounded: B): WeightedGroupL2 and WeightedL1GroupL2 on the
-non-contiguous layout grp_ptr = [0, 2, 3], grp_indices = [2, 0, 1] (group 0 = features {2, 0}, group 1 = {1}),
+non-contiguous layout grp_ptr = [0, 2, 3], grp_indices = [1, 0, 2] (group 0 = features {1, 0}, group 1 = {2}: no group index coincides with its feature index),
 all real values of w, gradients, weights, hyper-parameters; both positivity flags.
 
   value            == alpha * sum_g weights_g ||w_[g]||   (+inf exactly when positive and some w_j < 0)      C04 C08 C11
@@ -16,8 +16,8 @@ from pv.core import add_task
 
 BLK = 'skglm.penalties.block_separable'
 GP = np.array([0, 2, 3], dtype=np.int32)
-GI = np.array([2, 0, 1], dtype=np.int32)
-GROUPS = [[2, 0], [1]]
+GI = np.array([1, 0, 2], dtype=np.int32)
+GROUPS = [[1, 0], [2]]
 
 
 def _mk(positive):
@@ -42,7 +42,7 @@ def wgl2_value_task(T, positive):
     pre = zpre([a >= 0, wt[0] >= 0, wt[1] >= 0])
     feas = z3.And(*[t >= 0 for t in w]) if positive else z3.BoolVal(True)
     n0, n1 = z3.Real('n0'), z3.Real('n1')
-    aux = [n0 >= 0, n0 * n0 == w[2] * w[2] + w[0] * w[0], n1 >= 0, n1 * n1 == w[1] * w[1]]
+    aux = [n0 >= 0, n0 * n0 == w[1] * w[1] + w[0] * w[0], n1 >= 0, n1 * n1 == w[2] * w[2]]
 
     def post(out, p):
         if sym.is_inf(out):
@@ -220,7 +220,7 @@ def sparse_group_task(T, g):
     if g == 0:
         w = [z3.Real(f'w{i}') for i in range(3)]
         n0, n1 = z3.Real('n0'), z3.Real('n1')
-        aux = [n0 >= 0, n0 * n0 == w[2] * w[2] + w[0] * w[0], n1 >= 0, n1 * n1 == w[1] * w[1]]
+        aux = [n0 >= 0, n0 * n0 == w[1] * w[1] + w[0] * w[0], n1 >= 0, n1 * n1 == w[2] * w[2]]
         ab = lambda t: z3.If(t >= 0, t, -t)
         check_contract(T, 'value', lambda: mk().value(np.array([R(t) for t in w], dtype=object)), pre,
                        lambda out, p: [('==alpha*(sum_g wg_g||w_g|| + sum_j wf_j|w_j|)', aux,
@@ -240,7 +240,8 @@ def sparse_group_task(T, g):
 
 
 for _g in (0, 1):
-    add_task('C07', f'block_separable:WeightedL1GroupL2.prox_1group[g={_g}]', sparse_group_task, strength='B', g=_g)
+    add_task('C07', f'block_separable:WeightedL1GroupL2.prox_1group[g={_g}]', sparse_group_task, strength='B',
+             tier=('thorough' if _g == 0 else 'quick'), g=_g)
 
 
 # ----------------------------------------------------------------------------- native replay
